@@ -14,6 +14,7 @@ import (
 	"strings"
 
 	dbm "github.com/cometbft/cometbft-db"
+	"github.com/cosmos/cosmos-sdk/codec"
 	abci "github.com/cometbft/cometbft/abci/types"
 	sdk "github.com/cosmos/cosmos-sdk/types"
 	banktypes "github.com/cosmos/cosmos-sdk/x/bank/types"
@@ -54,7 +55,43 @@ func committedStateHash(w *world.World) string {
 
 type History struct {
 	Accounts []string   `json:"accounts"`
-	Blocks   [][]string `json:"blocks"` // base64 tx bytes
+	Blocks   [][]string `json:"blocks"`  // base64 tx bytes
+	Genesis  string     `json:"genesis"` // name of a genesis variant ("" = plain default genesis)
+}
+
+// genesisVariants: unusual but validation-passing genesis contents (the property quantifies over every genesis).
+// Go map iteration order during InitGenesis is the nondeterminism these are meant to provoke.
+var genesisVariants = map[string]func(gs map[string]json.RawMessage, cdc codec.Codec){
+	"did-shared-document-id": func(gs map[string]json.RawMessage, cdc codec.Codec) {
+		e := newDidEnv()
+		dA, dB := e.DIDs[0], e.DIDs[1]
+		docs := map[string]*didtypes.DIDDocumentWithSeq{
+			dA: {Document: e.doc("D1", dB), Sequence: 3}, // key dA, document about dB
+			dB: {Document: e.doc("D2", dB), Sequence: 5},
+		}
+		for i := 0; i < 6; i++ { // more pairs, so that every import order is likely to show within a few samples
+			x := fmt.Sprintf("did:panacea:%s%d", strings.Repeat("3", 31), i+1)
+			y := fmt.Sprintf("did:panacea:%s%d", strings.Repeat("4", 31), i+1)
+			docs[x] = &didtypes.DIDDocumentWithSeq{Document: e.doc("D1", y), Sequence: uint64(10 + i)}
+			docs[y] = &didtypes.DIDDocumentWithSeq{Document: e.doc("D5", y), Sequence: uint64(20 + i)}
+		}
+		gs["did"] = cdc.MustMarshalJSON(&didtypes.GenesisState{Documents: docs})
+	},
+	"did-many": func(gs map[string]json.RawMessage, cdc codec.Codec) {
+		gs["did"] = cdc.MustMarshalJSON(&didtypes.GenesisState{Documents: bulkDIDs(newDidEnv(), 40)})
+	},
+	"aol-odd-owners": func(gs map[string]json.RawMessage, cdc codec.Codec) { c13Inject().mutate(gs, cdc) },
+	"pnft-mixed": func(gs map[string]json.RawMessage, cdc codec.Codec) {
+		A, B, W := world.NewAccount("A"), world.NewAccount("B"), world.NewAccount("W")
+		var g pnfttypes.GenesisState
+		for i, o := range []*world.Account{B, A, W, A, B} {
+			g.Denoms = append(g.Denoms, &pnfttypes.Denom{Id: fmt.Sprintf("g%d", 5-i), Name: "n", Symbol: "S", Owner: o.Bech})
+		}
+		for i, o := range []*world.Account{W, B, A, B} {
+			g.Pnfts = append(g.Pnfts, &pnfttypes.Pnft{DenomId: "g3", Id: fmt.Sprintf("t%d", 9-i), Name: "tok", Creator: A.Bech, Owner: o.Bech, CreatedAt: world.BaseTime})
+		}
+		gs["pnft"] = cdc.MustMarshalJSON(&g)
+	},
 }
 
 type RunOpts struct {
@@ -186,9 +223,13 @@ func (e *twinEnv) setupSpecs() []world.TxSpec {
 // buildHistory executes blocks of op indices on a fresh in-process instance, signing each transaction against the
 // state it meets, and returns the raw history plus what this instance (node A) observed.
 func (e *twinEnv) buildHistory(blocks [][]int) (History, []BlockObs) {
+	return e.buildHistoryG(blocks, "")
+}
+
+func (e *twinEnv) buildHistoryG(blocks [][]int, genesis string) (History, []BlockObs) {
 	ops := e.mixedOps()
-	w := world.New(world.Options{Accounts: e.accounts()})
-	h := History{}
+	w := world.New(world.Options{Accounts: e.accounts(), Mutate: genesisVariants[genesis]})
+	h := History{Genesis: genesis}
 	for _, a := range e.accounts() {
 		h.Accounts = append(h.Accounts, a.Name)
 	}
@@ -274,7 +315,7 @@ func (e *twinEnv) execHistory(h History, o RunOpts, db dbm.DB) (res ExecResult) 
 		call = -1 << 30 // stop points do not apply to a resumed run
 		w.BeginBlock()
 	} else {
-		w = world.New(world.Options{Accounts: accs, DB: db})
+		w = world.New(world.Options{Accounts: accs, DB: db, Mutate: genesisVariants[h.Genesis]})
 	}
 	after := func() bool { // bookkeeping after one ABCI call; true = stop now
 		if o.QueriesBetween || o.ExtraAt[call] == "query" {
